@@ -2,6 +2,7 @@ SPECIFICATION Spec
 CONSTANTS
   CHUNK = 6
   BSZ = 4
-  MaxLen = 27
+  MaxLen = 19
+  Variant = "ok"
 INVARIANTS ClassifierLaw ChunkLaw
 CHECK_DEADLOCK FALSE
